@@ -6,6 +6,7 @@ package harness
 import (
 	"encoding/json"
 	"fmt"
+	"io"
 	"os"
 	"os/exec"
 	"runtime"
@@ -62,6 +63,13 @@ type partial struct {
 	PerScenario []string         `json:"per_scenario,omitempty"`
 }
 
+// Cleanup runs before the process exits (temp directories of a harness).
+var Cleanup = func() {}
+
+// ResultWriter is where a worker writes its partial result (the harnesses of
+// chatty programs point os.Stdout elsewhere and keep the real one here).
+var ResultWriter io.Writer = os.Stdout
+
 // Outcome lets scenario checks tally observable outcome classes.
 var (
 	outMu    sync.Mutex
@@ -80,17 +88,23 @@ func tier() string { return ev.Tier(os.Getenv("MC_TIER")) }
 // Run is the entry point: coordinator unless MC_SHARD or MC_REPLAY is set.
 func Run(p *Prop) {
 	if f := os.Getenv("MC_REPLAY"); f != "" {
-		os.Exit(replay(p, f))
+		rc := replay(p, f)
+		Cleanup()
+		os.Exit(rc)
 	}
 	if os.Getenv("MC_LIST") != "" {
-		fmt.Println(len(filter(p.Scenarios(tier()))))
+		fmt.Fprintln(ResultWriter, len(filter(p.Scenarios(tier()))))
+		Cleanup()
 		return
 	}
 	if sh := os.Getenv("MC_SHARD"); sh != "" {
 		worker(p, sh)
+		Cleanup()
 		return
 	}
-	os.Exit(coordinate(p))
+	rc := coordinate(p)
+	Cleanup()
+	os.Exit(rc)
 }
 
 func worker(p *Prop, shard string) {
@@ -110,7 +124,7 @@ func worker(p *Prop, shard string) {
 			out.Outcomes[c] += v
 		}
 		outMu.Unlock()
-		json.NewEncoder(os.Stdout).Encode(&out)
+		json.NewEncoder(ResultWriter).Encode(&out)
 	}()
 	scs := filter(p.Scenarios(tier()))
 	mine := []*mcrt.Scenario{}
